@@ -48,6 +48,7 @@
 #include <array>
 #include <bitset>
 #include <cstdint>
+#include <limits>
 #include <string>
 #include <type_traits>
 #include <unordered_map>
@@ -1264,6 +1265,65 @@ void float_selection(char const *fname)
   }
 }
 
+
+// A box one of whose bounds is NaN contains no point at all (pos <= p < max is false in that coordinate for every p): it is
+// an empty box.  contains_point is false everywhere, and an intersection with it contains no point, in either order.
+template <class F>
+void nan_boxes(char const *fname)
+{
+  constexpr dim_t N = 2;
+  using box = fcppt::math::box::object<F, N>;
+  using vec = typename box::vector;
+  std::string const e = std::string("nan-bounds<") + fname + ",2>";
+  if (!vf::entry_enabled(e) || !vf::mine(vf::hash_str(e)))
+    return;
+  vf::set_entry(e);
+  if (!vf::begin_case("boxes with one NaN bound against all boxes with corners in {0,5,10}^2"))
+    return;
+  vf::sample_case(1);
+  F const nan = std::numeric_limits<F>::quiet_NaN();
+  std::vector<F> const g{F(0), F(5), F(10)};
+  std::vector<box> plain, broken;
+  for (F x0 : g)
+    for (F x1 : g)
+      for (F y0 : g)
+        for (F y1 : g)
+          if (x0 < x1 && y0 < y1)
+            plain.push_back(box(vec(x0, y0), vec(x1, y1)));
+  for (unsigned which = 0; which < 4; ++which)
+  {
+    std::array<F, 4> c{F(0), F(0), F(5), F(5)};
+    c[which] = nan;
+    broken.push_back(box(vec(c[0], c[1]), vec(c[2], c[3])));
+  }
+  std::vector<F> const probes{F(-1), F(0), F(1), F(2.5), F(4.9), F(5), F(7), F(10)};
+  unsigned k = 0;
+  for (box const &nb : broken)
+  {
+    vf::note_distinct(vf::hash_mix(vf::hash_str(e), k++));
+    for (F px : probes)
+      for (F py : probes)
+        if (fcppt::math::box::contains_point(nb, vec(px, py)))
+          vf::violation(std::string("contains_point/") + fname + ",2/member-of-a-box-with-a-NaN-bound", "mismatch", "bound #" + std::to_string(k - 1));
+    for (box const &pb : plain)
+      for (int order = 0; order < 2; ++order)
+      {
+        box const r = order == 0 ? fcppt::math::box::intersection(pb, nb) : fcppt::math::box::intersection(nb, pb);
+        VF_COUNT("nan-bounds/intersections");
+        for (F px : probes)
+          for (F py : probes)
+            if (fcppt::math::box::contains_point(r, vec(px, py)))
+            {
+              vf::violation(std::string("intersection/") + fname + ",2/points-although-one-operand-has-a-NaN-bound", "mismatch",
+                            "NaN in bound #" + std::to_string(k - 1) + (order == 0 ? " (second operand)" : " (first operand)"));
+              px = py = F(1e9); // one report per pair
+              break;
+            }
+      }
+  }
+  vf::add_evals(broken.size() * plain.size() * 2);
+}
+
 #ifndef VF_SLICE
 #define VF_SLICE -2 // single translation unit build: everything
 #endif
@@ -1302,6 +1362,8 @@ void vf_slice_3()
   vf::count("natural/judged-with-a-scalar-without-negatives");
   float_selection<double>("double");
   float_selection<float>("float");
+  nan_boxes<double>("double");
+  nan_boxes<float>("float");
   vf::count("heavy/constructed", vf::heavy_stats().constructed);
   vf::count("heavy/moved", vf::heavy_stats().moved);
   vf::count("heavy/moved-from-reads(observed)", vf::heavy_stats().moved_from_reads);
